@@ -11,7 +11,12 @@
 EXTENDS Machine, KnownDevs
 
 AllDeviations == {"Dev_IncDecWritesCF", "Dev_NegZeroKeepsSF", "Dev_Imul8Flags",
-                  "Dev_JleConjunction", "Dev_LeaDsRelative"}
+                  "Dev_JleConjunction", "Dev_LeaDsRelative", "Dev_DeepMacroChainAborts"}
+
+\* a chain of nested macro uses deeper than 2000 levels aborts with a native stack overflow
+\* (every level constructs and runs a fresh parser recursively); shallower chains must expand
+DevChainApplies(d, depth, status, timeout) ==
+  d = "Dev_DeepMacroChainAborts" /\ depth > 2000 /\ ~timeout /\ status # 0
 
 BinOrLogic(op, w, a, b, cin) ==
   IF op \in {"and", "or", "xor", "test"} THEN Logic(op, w, a, b) ELSE BinArith(op, w, a, b, cin)
